@@ -170,7 +170,15 @@ def vm_cond(ctx):
                 if sa and sb and {sa, sb} == {1, 2}:
                     return 'same' if cinfo(t[1])['name'] == 'eq' else ('not', 'same')
             if is_call(t, 'concurrent') and len(t[2]) == 2:
-                return 'conc'
+                sides = set()
+                for a in t[2]:
+                    ev = elem_value_of(a)
+                    if ev and param_path(ev[0]) and param_path(ev[0])[1] == (r['entries'],) and tuple(ev[3]) == tuple(sub):
+                        sides.add(param_path(ev[0])[0])
+                if sides == {1, 2}:
+                    return 'conc'
+                info['bad_conc'] = fmt(t, 4)
+                return None
             return None
 
         def classify(a, b, t):
@@ -243,8 +251,9 @@ def vm_cond(ctx):
                     if fr2:
                         inner = rc._reach(fr2[0], {fr2[1]})
                         res[(same, conc)] = (any(b in inner for b in nested), rc.must_pass(nested, start=fr2[0], stops=(fr2[1],)))
-            ok = bool(nested) and res.get((True, True), (0, 0))[1] and not any(v[0] for k, v in res.items() if k != (True, True))
+            ok = bool(nested) and res.get((True, True), (0, 0))[1] and not any(v[0] for k, v in res.items() if k != (True, True)) and 'bad_conc' not in info
             ctx.check(ok, 'map/nested', vb, 'nested validate_merge exactly for equal keys with concurrent entry clocks',
+                      ('the concurrency test gating the nested check is %s, not a comparison of the two entry clocks' % info['bad_conc']) if 'bad_conc' in info else
                       'Map::validate_merge does not recurse into the values exactly for equal keys with concurrent clocks',
                       details={'(same key, concurrent) -> (nested may, must)': {str(k): v for k, v in res.items()}})
 
